@@ -135,13 +135,18 @@ def g_live(rng, nodes):
     cols, rows = tl.shape_of(nodes)
     y = tl.pick_pos(rng, [r for r, _ in rows]); x = tl.pick_pos(rng, [r for r, _ in cols])
     rep = rng.choice([None, 1, 2, 2, 3, 3, 4])
-    return ['row_rep', y, rep] if rng.random() < 0.5 else ['cell_rep', x, y, rep]
+    k = rng.choice(['row_rep', 'row_rep', 'cell_rep', 'cell_rep', 'row_append', 'row_set', 'row_insert', 'row_delete'])
+    if k == 'row_rep': return [k, y, rep]
+    if k == 'cell_rep': return [k, x, y, rep]
+    if k == 'row_append': return [k, y, tl.g_cellspec(rng)]
+    if k in ('row_set', 'row_insert'): return [k, y, x, tl.g_cellspec(rng)]
+    return [k, y, x]
 
 
 def g_opaque(rng, nodes):
     cols, rows = tl.shape_of(nodes)
     y = tl.pick_pos(rng, [r for r, _ in rows], allow_neg=False); x = tl.pick_pos(rng, [r for r, _ in cols], allow_neg=False)
-    k = rng.choice(['rstrip', 'optimize_width', 'transpose', 'row_rstrip', 'row_append', 'row_set', 'row_insert', 'row_delete'])
+    k = rng.choice(['rstrip', 'optimize_width', 'transpose', 'row_rstrip'])
     if k == 'rstrip': return [k, rng.random() < 0.5]
     if k in ('optimize_width', 'transpose'): return [k]
     if k == 'row_rstrip': return [k, y]
@@ -242,6 +247,14 @@ class Runner(tl.Driver):
     def apply_live(self, l, table):
         """the `repeated` setter of a LIVE row / cell obtained with clone=False; returns None or repr of the exception"""
         try:
+            if l[0] in ('row_append', 'row_set', 'row_insert', 'row_delete'):
+                # the Row API through a live row handle
+                row = tl.timed(table.get_row, l[1], clone=False)
+                if l[0] == 'row_append': tl.timed(row.append_cell, tl.mk_cell(self.odfdo, l[2]))
+                elif l[0] == 'row_set': tl.timed(row.set_cell, l[2], tl.mk_cell(self.odfdo, l[3]))
+                elif l[0] == 'row_insert': tl.timed(row.insert_cell, l[2], tl.mk_cell(self.odfdo, l[3]))
+                else: tl.timed(row.delete_cell, l[2])
+                return None
             if l[0] == 'row_rep':
                 obj = tl.timed(table.get_row, l[1], clone=False)
             else:
@@ -274,6 +287,15 @@ class Runner(tl.Driver):
         except Exception as e:
             return repr(e)
 
+    def c_lop(self, l):
+        k = l[0]
+        cell = lambda spec: tl.c_cellrun(self.a_cell(tl.mk_cell(self.odfdo, spec)))
+        if k == 'row_append': return 'LRowOp (%d) (RApp %s)' % (l[1], cell(l[2]))
+        if k == 'row_set': return 'LRowOp (%d) (RSet (%d) %s)' % (l[1], l[2], cell(l[3]))
+        if k == 'row_insert': return 'LRowOp (%d) (RIns (%d) %s)' % (l[1], l[2], cell(l[3]))
+        if k == 'row_delete': return 'LRowOp (%d) (RDel (%d))' % (l[1], l[2])
+        return c_lop(l)
+
     def try_read(self, q, table):
         try:
             return self.read_b(q, table), None
@@ -299,21 +321,21 @@ class Runner(tl.Driver):
             a, raised = self.apply(st['op'])
             with self.on(twin):
                 a2, traised = self.apply(st['op'])
-            coq_op = 'Some (BMut (%s))' % tl.c_op(a)
+            coq_op = 'CModel (BMut (%s))' % tl.c_op(a)
         elif 'opaque' in st:
             raised = self.apply_opaque(st['opaque'], t)
             traised = self.apply_opaque(st['opaque'], twin)
-            coq_op = 'None'
+            coq_op = 'CXform' if st['opaque'][0] in ('rstrip', 'optimize_width', 'transpose') and not raised else 'COpaque'
             a = None
         elif 'live' in st:
             raised = self.apply_live(st['live'], t)
             traised = self.apply_live(st['live'], twin)
-            coq_op = 'Some (BLive (%s))' % c_lop(st['live'])
+            coq_op = 'CModel (BLive (%s))' % self.c_lop(st['live'])
             a = None
         else:
             out, raised = self.try_read(st['read'], t)
             tout, traised = self.try_read(st['read'], twin)
-            coq_op = 'Some (BRead (%s))' % c_bread(st['read'])
+            coq_op = 'CModel (BRead (%s))' % c_bread(st['read'])
             a = None
         post = self.abs()
         postd = dump(t)
@@ -358,7 +380,7 @@ class Runner(tl.Driver):
 
 HEADER = ('Require Import Vault Row Table Grid Tableabs Tablexml Tablechk TableB TableBabs TableBchk.\n'
           'From Coq Require Import List ZArith NArith Bool Arith. Import ListNotations. Open Scope Z_scope.\n'
-          'Inductive stepobs2 := S2 (o : option bop) (post : xtable) (postd : cdump) (raised : bool) (out : bans)\n'
+          'Inductive stepobs2 := S2 (o : cop) (post : xtable) (postd : cdump) (raised : bool) (out : bans)\n'
           '   (twin : xtable) (traised : bool) (tout : bans) (live fresh : list (bread * bans)) (afterd : cdump)\n'
           '   (reload : option (xtable * list (bread * bans))).\n'
           '(* first hard code of a history as 100*(step+1)+code; 8 / 9 if only a note-level code occurred; 0 otherwise *)\n'
@@ -372,6 +394,24 @@ HEADER = ('Require Import Vault Row Table Grid Tableabs Tablexml Tablechk TableB
           'Definition mkc2 (tab : list (Z * Z)) (init : xtable) (d : cdump) (l : list stepobs2) := (tab, init, d, l).\n'
           'Definition chk02 (c : list (Z * Z) * xtable * cdump * list stepobs2) : nat :=\n'
           '  let \'(tab, init, d, l) := c in chk_hist2 (vcl_of tab) init d 0 0 l.\n')
+
+
+def run_shards_retry(header, terms, checker, tag, shard):
+    """common.run_shards, and once more (smaller shards) for the shards whose coqc was killed or timed out (rc 137 / 124: a loaded
+    machine must not produce an alarm; a genuine Coq error still does)"""
+    import re
+    bad, errors = common.run_shards(header, terms, checker, tag, shard=shard)
+    lost = [int(m.group(1)) for e in errors for m in [re.match(r'Cases_(\d+): rc=(137|124|-9)\b', e)] if m]
+    if not lost:
+        return bad, errors
+    errors = [e for e in errors if not re.match(r'Cases_(\d+): rc=(137|124|-9)\b', e)]
+    for k in lost:
+        sub = terms[k * shard:(k + 1) * shard]
+        b2, e2 = common.run_shards(header, sub, checker, tag + 'r', shard=max(1, shard // 6))
+        for i, c in b2.items():
+            bad[k * shard + i] = c
+        errors += e2
+    return bad, errors
 
 
 def run_case_once(odfdo, case):
@@ -418,7 +458,7 @@ def init_xml_of(odfdo, rng, kind, maxw, maxh):
     return s[rng.randrange(len(s))][1] if s else '<table:table table:name="t"/>'
 
 
-def gen_case(odfdo, seed, kind, nsteps, kinds=tl.OPS_CORE, maxw=8, maxh=8, reload_every=3, p_read=0.5, p_live=0.1, p_opaque=0.08):
+def gen_case(odfdo, seed, kind, nsteps, kinds=tl.OPS_CORE, maxw=8, maxh=8, reload_every=3, p_read=0.5, p_live=0.14, p_opaque=0.06):
     """state-dependent generation and execution in one pass: before each mutation, with probability p_read, one or two
     cache-filling reads (get_row / get_cell with clone true or false, traverse, get_column, columns, get_value, ...);
     positions around the run boundaries of the CURRENT state.  Returns (case JSON, result)."""
